@@ -258,10 +258,18 @@ impl Net {
                     out.count("round-trips-current-ok");
                 } else {
                     // removed (or never a member): cut off from secrets minted by / after its removal
+                    // (unless it was added again after that removal and processed that add: the
+                    // welcome hands the whole bundle over)
                     let cut_off = used != 0
                         && (1..=self.info.len()).any(|r| {
                             let i = &self.info[r - 1];
-                            i.op == "Remove" && i.arg == m2 as i64 && (r == used || self.before(r, used))
+                            i.op == "Remove"
+                                && i.arg == m2 as i64
+                                && (r == used || self.before(r, used))
+                                && !(1..=self.info.len()).any(|a| {
+                                    let j = &self.info[a - 1];
+                                    j.op == "Add" && j.arg == m2 as i64 && self.before(r, a) && self.dlv[m2].contains(&a)
+                                })
                         });
                     if cut_off {
                         out.count("round-trips-removed-probed");
@@ -486,10 +494,10 @@ fn record_one(run: usize, seed: [u8; 32], rng: &mut Rng, trace: &mut TraceWriter
                 if pairs + others.len() > REC_MAX_CONC {
                     continue;
                 }
+                // an add is only ever concurrent with another add of the same member
                 let bad = others.iter().any(|k| {
-                    let o = net.info[k - 1].op.as_str();
-                    (o == "Add" && (op == "Remove" || op == "Update")) || (op == "Add" && (o == "Remove" || net.info[k - 1].mints))
-                        || (o == "Remove" && op == "Add")
+                    let o = &net.info[k - 1];
+                    (o.op == "Add" || op == "Add") && !(o.op == "Add" && op == "Add" && o.arg == arg)
                 });
                 if bad {
                     continue;
